@@ -65,6 +65,16 @@ def logical_union_case(d):
         val = d.choice([1.5, -0.0, 3])
     else:
         val = d.choice([True, False])
+    fixeds = [b for b in branches if isinstance(b, dict) and b.get("type") == "fixed"]
+    if fixeds and d.p(0.35):
+        # the named logical type is defined once (first field) and then used by name: as a union branch and directly
+        fx = fixeds[0]
+        small = lambda: decimal.Decimal(d.rng(0, 9) * (-1 if d.p(0.3) else 1)).scaleb(-fx["scale"])  # noqa: E731
+        by_name = [fx["name"] if b is fx else b for b in branches]
+        js = {"type": "record", "name": "LUR", "fields": [{"name": "first", "type": fx}, {"name": "u", "type": by_name}, {"name": "again", "type": fx["name"]},
+                                                          {"name": "more", "type": {"type": "array", "items": fx["name"]}}]}
+        datum = {"first": small(), "u": val, "again": small(), "more": [small(), small()]}
+        return {"schema": js, "datum": datum, "parsed": d.p(0.4), "opts": 0, "tuple_notation": True, "wrong_hint": False, "may_not_conform": True, "logical_generated": True, "raw": raw, "by_name_logical": True}
     nested = d.p(0.3)
     js = {"type": "record", "name": "LU", "fields": [{"name": "u", "type": {"type": "array", "items": branches}}]} if nested else branches
     datum = {"u": [val, val]} if nested else val
